@@ -103,11 +103,21 @@ impl Symbols {
     }
 }
 
+/// Deduce the load address from the link to the second line.
+/// If the tokens are too short, the first line is unterminated, or the link is
+/// inconsistent, the standard start of program (2049) is returned.
 pub fn deduce_address(tokens: &[u8]) -> u16 {
+    const DEFAULT_ADDR: u16 = 2049;
+    if tokens.len() < 5 {
+        return DEFAULT_ADDR;
+    }
     let line2_addr = u16::from_le_bytes([tokens[0],tokens[1]]);
     let mut line2_rel = 4;
-    while tokens[line2_rel]>0 {
+    while line2_rel < tokens.len() && tokens[line2_rel]>0 {
         line2_rel += 1;
+    }
+    if line2_rel == tokens.len() || line2_rel + 1 > line2_addr as usize {
+        return DEFAULT_ADDR;
     }
     return line2_addr - line2_rel as u16 - 1;
 }
